@@ -25,6 +25,13 @@ EXPLANATION = (
     'cut short and covers every write; exactness of the undo for every '
     'history beyond the matrix is not decided.'
     ' R2.6b: every backup gets its own slot (the counter naming backup files is read and incremented in one critical section).')
+# round 13 additions
+EXPLANATION += (
+    ' R2.9 also decides that the cache writer creates no path the failure '
+    'handler does not know (it writes the file it is given, or removes any '
+    'other path itself when it fails). R2.6b accepts a ticket taken from the '
+    'length of a guarded collection only if the collection grows in the '
+    'critical section that reads the length.')
 # round 3/4 additions
 EXPLANATION += (
     ' R2.6b also decides that the backup slot name is an injective encoding of the ticket (whole ticket or positional digits, digit before quotient). R2.10 takes the guard facts from control dependence. R2.11: concurrently created directories keep an owner (R9.6) and directories made before a failing mkdir are handed off (R14.3).')
@@ -539,6 +546,14 @@ def _slot_encoding(ctx, rc):
                and isinstance(n.value, ast.Attribute) and
                n.value.attr in incs for t in n.targets
                if isinstance(t, ast.Name)}
+    # ... or taken from the length of a collection (R9.7 decides whether
+    # that is unique)
+    tickets |= {t.id for n in ast.walk(F.node) if isinstance(n, ast.Assign)
+                and isinstance(n.value, ast.Call) and isinstance(
+                    n.value.func, ast.Name) and n.value.func.id == 'len'
+                and n.value.args and isinstance(
+                    n.value.args[0], ast.Attribute) for t in n.targets
+                if isinstance(t, ast.Name)}
     key = 'slot name is an injective encoding of the ticket'
     if not tickets:
         raise AnalysisError('backup ticket not identified in ' + F.qualname)
